@@ -171,3 +171,91 @@ Proof.
       intros a Ha. unfold accx' in Ha. destruct (o_leb O lo x && o_leb O x hi); [injection Ha as <-; lia | apply Hacc in Ha; lia].
 Qed.
 End Order.
+
+(** * C. the whole genome: chromosomes tile the marker array *)
+Lemma slice_app_mid {A} (pre c X : list A) : slice (length pre) (length pre + length c) (pre ++ c ++ X) = c.
+Proof.
+  unfold slice. replace (length pre + length c - length pre) with (length c) by lia.
+  rewrite skipn_app, Nat.sub_diag, skipn_all. cbn [skipn app]. rewrite firstn_app, Nat.sub_diag, firstn_all. cbn [firstn]. now rewrite app_nil_r.
+Qed.
+Lemma write_app_mid {A} (done mid X lab : list A) :
+  write (length done) (length done + length mid) lab (done ++ mid ++ X) = done ++ lab ++ X.
+Proof.
+  unfold write. rewrite firstn_app, Nat.sub_diag, firstn_all. cbn [firstn]. rewrite app_nil_r. f_equal. f_equal.
+  rewrite skipn_app. rewrite skipn_all2 by lia. cbn [app].
+  replace (length done + length mid - length done) with (length mid) by lia.
+  rewrite skipn_app, Nat.sub_diag, skipn_all. reflexivity.
+Qed.
+Lemma slice_app_mid' {A} (pre c X : list A) a b : a = length pre -> b = a + length c -> slice a b (pre ++ c ++ X) = c.
+Proof. intros -> ->. apply slice_app_mid. Qed.
+Lemma write_app_mid' {A} (done mid X lab : list A) a b : a = length done -> b = a + length mid ->
+  write a b lab (done ++ mid ++ X) = done ++ lab ++ X.
+Proof. intros -> ->. apply write_app_mid. Qed.
+Lemma nth_app_hd {A} (pre c X : list A) d : c <> [] -> nth (length pre) (pre ++ c ++ X) d = hd d c.
+Proof. intros H. rewrite app_nth2, Nat.sub_diag by lia. destruct c; [congruence|reflexivity]. Qed.
+Lemma nth_last {A} (c : list A) d : c <> [] -> nth (length c - 1) c d = last c d.
+Proof.
+  induction c as [|a c IH]; [congruence|]. intros _. destruct c as [|b c']; [reflexivity|].
+  specialize (IH ltac:(discriminate)).
+  change (last (a :: b :: c') d) with (last (b :: c') d). rewrite <- IH.
+  replace (length (a :: b :: c') - 1) with (S (length (b :: c') - 1)) by (cbn [length]; lia).
+  reflexivity.
+Qed.
+Lemma nth_app_last {A} (pre c X : list A) d : c <> [] -> nth (length pre + length c - 1) (pre ++ c ++ X) d = last c d.
+Proof.
+  intros H. assert (0 < length c) by (destruct c; [congruence|cbn; lia]).
+  rewrite app_nth2 by lia. replace (length pre + length c - 1 - length pre) with (length c - 1) by lia.
+  rewrite app_nth1 by lia. now apply nth_last.
+Qed.
+Lemma map2_repeat_r {A B C} (f : A -> B -> C) (l : list A) (b : B) : map2 f l (repeat b (length l)) = map (fun x => f x b) l.
+Proof. induction l as [|x l IH]; cbn; [reflexivity|]. now rewrite IH. Qed.
+
+Fixpoint starts_from (a : nat) (lens : list nat) : list nat := match lens with [] => [] | l :: r => a :: starts_from (a + l) r end.
+Fixpoint stops_from (a : nat) (lens : list nat) : list nat := match lens with [] => [] | l :: r => (a + l) :: stops_from (a + l) r end.
+
+Section Genome.
+Context {T : Type} (O : ops T).
+Notation z := (o_ofn O 0).
+
+(** labels of one chromosome [c] with [n] blocks, the first of which is numbered [k] *)
+Definition chrom_labels (k n : nat) (c : list T) : list (option nat) :=
+  map (fun x => bin_label O (linspace O (hd z c) (last c z) n) x k None) c.
+Fixpoint labels_from (k : nat) (nblk : list nat) (chrs : list (list T)) : list (list (option nat)) :=
+  match nblk, chrs with
+  | n :: nb, c :: cs => chrom_labels k n c :: labels_from (k + n) nb cs
+  | _, _ => []
+  end.
+
+Lemma chrom_labels_length k n c : length (chrom_labels k n c) = length c.
+Proof. unfold chrom_labels. apply map_length. Qed.
+
+Lemma haplobin_loop_tiled : forall (chrs : list (list T)) (nblk : list nat) (pre : list T) (done : list (option nat)) (k : nat),
+  length nblk = length chrs -> Forall (fun c => c <> []) chrs -> length done = length pre ->
+  haplobin_loop O (pre ++ concat chrs)
+    (combine nblk (combine (starts_from (length pre) (map (@length T) chrs)) (stops_from (length pre) (map (@length T) chrs))))
+    k (done ++ repeat None (length (concat chrs)))
+  = done ++ concat (labels_from k nblk chrs).
+Proof.
+  induction chrs as [|c cs IH]; intros nblk pre done k HL HN HD.
+  - destruct nblk; [|discriminate]. cbn. reflexivity.
+  - destruct nblk as [|n nb]; [discriminate|]. apply Forall_cons_iff in HN as [Hc HN].
+    cbn [map starts_from stops_from combine haplobin_loop concat labels_from].
+    rewrite app_length, repeat_app.
+    rewrite (nth_app_hd pre c (concat cs) z Hc), (nth_app_last pre c (concat cs) z Hc).
+    rewrite (slice_app_mid pre c (concat cs)).
+    rewrite (slice_app_mid' done (repeat None (length c)) _ (length pre) (length pre + length c)) by (rewrite ?repeat_length; lia).
+    rewrite map2_repeat_r. fold (chrom_labels k n c).
+    rewrite (write_app_mid' done (repeat None (length c)) _ _ (length pre) (length pre + length c)) by (rewrite ?repeat_length; lia).
+    replace (pre ++ c ++ concat cs) with ((pre ++ c) ++ concat cs) by now rewrite app_assoc.
+    replace (done ++ chrom_labels k n c ++ repeat None (length (concat cs))) with ((done ++ chrom_labels k n c) ++ repeat None (length (concat cs))) by now rewrite app_assoc.
+    replace (length pre + length c) with (length (pre ++ c)) by (rewrite app_length; lia).
+    rewrite IH; [now rewrite <- app_assoc | cbn in HL; lia | exact HN | rewrite !app_length, chrom_labels_length; lia].
+Qed.
+
+(** for chromosome groups that tile the marker array, haplobin is the concatenation of the per-chromosome labels *)
+Lemma haplobin_tiled (chrs : list (list T)) (nblk : list nat) :
+  length nblk = length chrs -> Forall (fun c => c <> []) chrs ->
+  haplobin O nblk (concat chrs) (starts_from 0 (map (@length T) chrs)) (stops_from 0 (map (@length T) chrs))
+  = concat (labels_from 0 nblk chrs).
+Proof. intros HL HN. unfold haplobin. apply (haplobin_loop_tiled chrs nblk [] [] 0 HL HN eq_refl). Qed.
+End Genome.
